@@ -279,7 +279,7 @@ Local Close Scope Z_scope.
 (** terminal values <-> value codes of the snapshot: a bijection *)
 Theorem C10_mt_code_bijection :
   (forall v, decode (code v) = v) /\ (forall n, code (decode n) = n).
-Proof. exact (conj decode_code code_decode). Qed.
+Proof. exact mt_code_bijection. Qed.
 Print Assumptions C10_mt_code_bijection.
 
 (** the invariant [MtOK] (well-formed MTBDD table, terminal values in the i64
@@ -287,11 +287,7 @@ Print Assumptions C10_mt_code_bijection.
 Theorem C10_mt_invariant_checker :
   forall s, mt_ok_b s = true <->
     (WF s /\ s_kind s = KMtbdd /\ forall t c, term_val s t = Some c -> wf (decode c)).
-Proof.
-  intros s. rewrite mt_ok_b_spec. split.
-  - intros B. split; [apply (mo_wf s B)|]. split; [apply (mo_kind s B) | apply (mo_vals s B)].
-  - intros [A [B C]]. constructor; assumption.
-Qed.
+Proof. exact mt_invariant_checker. Qed.
 Print Assumptions C10_mt_invariant_checker.
 
 (** hash-consing of terminal values: [get_terminal] (= constant) *)
@@ -597,11 +593,7 @@ Theorem C10_mt_hypotheses_satisfiable :
   MtOK ex0 /\ MtOK ex1 /\ MCacheOK ac_get ex1 [] /\
   ref_ok ex1 ex_f /\ ref_ok ex1 ex_x0 /\ Cube ex1 ex_x0 [(0, true)] /\
   vt ex1 ex_f = [Some (INum 0); Some (INum 3); Some (INum 1); Some (INum 4)].
-Proof.
-  split; [exact ex0_ok|]. split; [exact ex1_ok|]. split; [apply mac_empty_ok|].
-  split; [vm_compute; eexists; reflexivity|]. split; [vm_compute; eexists; reflexivity|].
-  split; [apply (cube_lits_sound ex1 ex1_ok 3); vm_compute; reflexivity | exact ex_f_table].
-Qed.
+Proof. exact mt_hypotheses_satisfiable. Qed.
 Print Assumptions C10_mt_hypotheses_satisfiable.
 
 (** short-cuts that are not laws cannot be proved: the two defects that were
